@@ -281,7 +281,7 @@ func vectorCases(yield func(Case)) {
 
 func TestForkID(t *testing.T) {
 	pbt.Run(t, pbt.Sub[Case]{
-		Name: subName, Quick: 4000, Thorough: 60000,
+		Name: subName, Quick: 8000, Thorough: 80000,
 		Gen:      genCase,
 		Check:    check,
 		Enum:     func(tier string, yield func(Case)) { vectorCases(yield) },
